@@ -3,7 +3,7 @@ CONSTANTS
   Places = {0, 1}
   Sizes = {1, 2, 3, 4}
   Algs = {1, 2, 3}
-  AuxSizes = {9999, 0, 1, 2, 4}
+  AuxSizes = {9999, 9998, 0, 1, 2, 4}
   Octets = {0, 1, 255}
   MSize = 11
   MaxDepth = 4
